@@ -43,6 +43,10 @@ def known_functions() -> Dict[str, dict]:
     return _known_cache
 
 
+ALIASES: Dict[int, Dict[str, str]] = {}      # id(module tree) -> {qualname of the pinned tree: where that function lives now}
+PROTECTED: Dict[int, set] = {}               # names of moved functions: they keep their identity and are not inlined
+
+
 class NotInlinable(Exception):
     pass
 
@@ -115,6 +119,7 @@ def restore_renamed(tree: ast.Module, modname: str, baseline: Optional[Dict[str,
         return log
     ref = baseline or baseline_bodies(modname)
     used = set()
+    protected = set()
     for q in missing:
         want = ref.get(q)
         if want is None:
@@ -140,6 +145,9 @@ def restore_renamed(tree: ast.Module, modname: str, baseline: Optional[Dict[str,
                 log.append('%s: %s was renamed to %s (similarity %.2f) - analysed under its old name' % (modname, q, nq, best_r))
             else:
                 log.append('%s: %s now lives at %s (similarity %.2f)' % (modname, q, nq, best_r))
+                ALIASES.setdefault(id(tree), {})[q] = nq
+                protected.add(fn.name)
+    PROTECTED[id(tree)] = protected
     return log
 
 
@@ -241,6 +249,8 @@ class _Inliner:
                     self.nested[(q.rsplit('.', 1)[0], fn.name)] = fn
                 continue
             if not fn.name.startswith('_') or (fn.name.startswith('__') and fn.name.endswith('__')) or fn.name.startswith('_yatiml'):
+                continue
+            if fn.name in PROTECTED.get(id(tree), ()):
                 continue
             if not self._eligible(fn):
                 continue
@@ -574,6 +584,7 @@ def _always_assigns(stmts: List[ast.stmt], target: ast.AST) -> bool:
 
 
 def canonical_decomposition(tree: ast.Module, modname: str, baseline_bodies: Optional[Dict[str, str]] = None) -> List[str]:
+    PROTECTED[id(tree)] = set()
     log = restore_renamed(tree, modname, baseline_bodies)
     try:
         log += _Inliner(tree, modname).run()
